@@ -204,6 +204,152 @@ def unit_weighting(kind, dt, field, exponent):
                 config={'weighting': kind, 'dtype': dt, 'exponent': str(exponent)})
 
 
+# --------------------------------------------------------------------------
+# discretized spaces: boundary-cell quadrature weights
+
+NU = 'odl.util.numerics:'
+DS = 'odl.discr.discr_space:'
+
+
+def frac_factor(fracs, ns, k, p):
+    """F(k)^(1/p) with F(k) = prod_ax frac_ax(k_ax); frac_ax = frac_l at index 0, frac_r at the last index (both for a
+    single-sample axis), 1 elsewhere; factors equal to 1 are skipped by the code (np.isclose == exact equality, K8)"""
+    f = S.lift(1.0)
+    for (fl, fr_), n, ki in zip(fracs, ns, k):
+        e = (lambda v: v) if p == 1.0 else ((lambda v: core.ssqrt(v)) if p == 2.0 else (lambda v: v ** (1 / p)))
+        f = f * s_if(core.sc_eq(ki, 0), e(fl), 1.0) * s_if(core.sc_eq(ki, n - 1), e(fr_), 1.0)
+    return f
+
+
+def unit_boundary(ndim, p):
+    """apply_on_boundary(x, _scaling_func_list(fracs, p), only_once=False) == F^(1/p) * x at every index"""
+    from pyvc import carr
+
+    def run(ctx):
+        I = ctx.I
+        sfl = I.get_func(DS + '_scaling_func_list')
+        aob = I.get_func(NU + 'apply_on_boundary')
+
+        def path(st):
+            st.closure_arrays = True
+            ns = [S(z3.Int('n%d' % a)) for a in range(ndim)]
+            fracs = []
+            for a in range(ndim):
+                st.assume(ns[a] >= 1)
+                fl, fr_ = S(z3.Real('fl%d' % a)), S(z3.Real('fr%d' % a))
+                st.assume(s_and(fl > 0, fr_ > 0))
+                fracs.append((fl, fr_))
+            x = carr.fresh_array('x', tuple(ns), npm.DT('float64'))
+            fr = ip.Frame(st)
+            try:
+                fl_ = I.call(sfl, [tuple(fracs)], {'exponent': p}, fr)
+                out = I.call(aob, [x], {'func': fl_, 'only_once': False}, fr)
+            except ip.PyRaise as e:
+                return ('raise', e.exc)
+            k = [S(z3.Int('k%d' % a)) for a in range(ndim)]
+            for ki, n in zip(k, ns):
+                st.assume(s_and(ki >= 0, ki < n))
+            return ('ok', (out, x, fracs, ns, k))
+        info = {'ndim': ndim, 'p': p}
+        for st, (status, r) in ctx.explore(path):
+            if status == 'raise':
+                ctx.fail(st, 'no_raise', 'raises %s%r' % (lib.exc_name(r), r.fields.get('args')), info)
+                continue
+            out, x, fracs, ns, k = r
+            want = frac_factor(fracs, ns, k, p) * x.at(tuple(k))
+            ctx.prove(st, 'boundary scaling: out(k) == prod_ax frac_ax(k_ax)^(1/p) * x(k) (corners get the product)', core.sc_eq(out.at(tuple(k)), want), info)
+            ctx.prove(st, 'input array unchanged', core.sc_eq(x.at(tuple(k)), carr.fresh_array('x', tuple(ns)).at(tuple(k))), info)
+    return Unit('discr/boundary-scaling/%dd/p=%s' % (ndim, p), run, funcs=[NU + 'apply_on_boundary', DS + '_scaling_func_list'],
+                config={'ndim': ndim, 'p': p}, bounded_in='ndim = %d' % ndim)
+
+
+def unit_discr_methods(meth, ndim):
+    """DiscretizedSpace._inner/_norm/_dist on a uniform, non-uniformly weighted space: the operands handed to the
+    tensor space are the boundary-scaled arrays (exponent 1 for inner, the space exponent for norm / dist)"""
+    from pyvc import carr
+    from contracts.props.C14 import Light, method
+
+    def run(ctx):
+        I = ctx.I
+        f = I.get_func(DS + 'DiscretizedSpace.' + meth)
+        cls = I.get_class(DS + 'DiscretizedSpace')
+
+        def path(st):
+            st.closure_arrays = True
+            ns = [S(z3.Int('n%d' % a)) for a in range(ndim)]
+            fracs = []
+            for a in range(ndim):
+                st.assume(ns[a] >= 2)
+                fl, fr_ = S(z3.Real('fl%d' % a)), S(z3.Real('fr%d' % a))
+                st.assume(s_and(fl > 0, fr_ > 0))
+                fracs.append((fl, fr_))
+            calls = []
+
+            class TElem(object):
+                def __init__(self, arr):
+                    self.arr = arr
+
+            def rec(name):
+                return method(lambda *a: calls.append((name, a)) or S(z3.Real('result')))
+            tspace = Light(['TensorSpace'], {'inner': rec('inner'), 'norm': rec('norm'), 'dist': rec('dist'),
+                                             'element': method(lambda arr, **kw: TElem(arr))})
+            part = Light(['RectPartition'], {'boundary_cell_fractions': tuple(fracs), 'is_uniform': True})
+            space = ip.Obj(cls)
+            space.fields['_DiscretizedSpace__tspace'] = tspace
+            space.fields['_DiscretizedSpace__partition'] = part
+            p = 2.0
+            st.cuts[DS + 'DiscretizedSpace.is_uniformly_weighted'] = lambda I2, fr2, self: False
+            st.cuts[DS + 'DiscretizedSpace.exponent'] = lambda I2, fr2, self: p
+            xa = carr.fresh_array('x', tuple(ns), npm.DT('float64'))
+            ya = carr.fresh_array('y', tuple(ns), npm.DT('float64'))
+
+            class DElem(object):
+                def __init__(self, arr, name):
+                    self.arr, self.name = arr, name
+                    self.tensor = TElem(arr)
+
+                def pv_asarray(self, I2, fr2):
+                    return self.arr
+
+                def pv_getattr(self, I2, fr2, nm):
+                    if nm == 'tensor':
+                        return self.tensor
+                    raise ip.PyRaise(I2.make_exc('AttributeError', nm))
+            x, y = DElem(xa, 'x'), DElem(ya, 'y')
+            fr = ip.Frame(st)
+            try:
+                I.call(f, [space, x] + ([y] if meth != '_norm' else []), {}, fr)
+            except ip.PyRaise as e:
+                return ('raise', e.exc)
+            k = [S(z3.Int('k%d' % a)) for a in range(ndim)]
+            for ki, n in zip(k, ns):
+                st.assume(s_and(ki >= 0, ki < n))
+            return ('ok', (calls, xa, ya, fracs, ns, k, p))
+        info = {'method': meth, 'ndim': ndim}
+        for st, (status, r) in ctx.explore(path):
+            if status == 'raise':
+                ctx.fail(st, 'no_raise', 'raises %s%r' % (lib.exc_name(r), r.fields.get('args')), info)
+                continue
+            calls, xa, ya, fracs, ns, k, p = r
+            want_name = meth.strip('_')
+            ok = len(calls) == 1 and calls[0][0] == want_name
+            ctx.prove(st, 'delegates once to tspace.%s' % want_name, ok, info)
+            if not ok:
+                continue
+            args = calls[0][1]
+            kt = tuple(k)
+            pe = 1.0 if meth == '_inner' else p
+            F = frac_factor(fracs, ns, k, pe)
+            ctx.prove(st, 'first operand is the boundary-scaled array F^(1/p) * x (p = 1 for the inner product)', core.sc_eq(args[0].arr.at(kt), F * xa.at(kt)), info,
+                      replay={'kind': 'discr', 'method': meth})
+            if meth == '_inner':
+                ctx.prove(st, 'second operand is y itself', core.sc_eq(args[1].arr.at(kt), ya.at(kt)), info)
+            elif meth == '_dist':
+                ctx.prove(st, 'second operand is the boundary-scaled array F^(1/p) * y', core.sc_eq(args[1].arr.at(kt), F * ya.at(kt)), info,
+                          replay={'kind': 'discr', 'method': meth})
+    return Unit('discr/%s/%dd' % (meth, ndim), run, funcs=[DS + 'DiscretizedSpace.' + meth], config={'method': meth, 'ndim': ndim}, bounded_in='ndim = %d' % ndim)
+
+
 def unit_canary():
     """must-fail: inner product claimed to conjugate the FIRST argument"""
     def run(ctx):
@@ -231,5 +377,15 @@ def units(tier, seed):
         for kind in ('const', 'array'):
             for p in (2.0, 1.0, float('inf'), 3.0):
                 us.append(unit_weighting(kind, dt, field, p))
+    for ndim in (1, 2):
+        for p in (1.0, 2.0):
+            us.append(unit_boundary(ndim, p))
+        for meth in ('_inner', '_norm', '_dist'):
+            us.append(unit_discr_methods(meth, ndim))
     us.append(unit_canary())
     return us
+
+
+def replay(ob):
+    from contracts import replay_c02
+    return replay_c02.replay(ob)
